@@ -280,7 +280,7 @@ def s_offtick(draw):
         bpms = sorted({k: v for k, v in bpms}.items())
         bpms = [[k, v] for k, v in bpms]
     tl = {"bpms": bpms, "stops": stops, "delays": delays, "warps": warps, "offset": draw(st.sampled_from(["0", "-0.009", "1.5"])),
-          "source": draw(st.sampled_from(["ssc", "ssc", "sm", "sm-freezes", "ssc-chart"]))}
+          "source": draw(st.sampled_from(["ssc", "ssc", "sm", "sm-freezes", "ssc-chart", "sm-stale-freezes", "sm-stale-freezes-first"]))}
     cols = 4
     nplayers = draw(st.sampled_from([1, 2]))
     players = []
